@@ -1,0 +1,7 @@
+//go:build !verif
+// +build !verif
+
+package linker
+
+// No-op counterpart of the /verif observation hook (see verif_observe.go, build tag "verif").
+func verifObserveTreeShaking(c *linkerContext) {}
